@@ -32,9 +32,9 @@ OPEN_FINDING = 'state-order-permuted-by-node-removal'
 
 def plan(tier, seed):
     q = tier == 'quick'
-    specs = [{'kind': 'lib', 'lib': l, 'part': p, 'parts': 3, 'subsets': 2 if q else 'all'} for l in H.LIBS for p in range(3)]
-    specs += [{'kind': 'shapes', 'n': 250 if q else 5000} for _ in range(4 if q else 8)]
-    specs += [{'kind': 'hier', 'n': 80 if q else 1500} for _ in range(4 if q else 8)]
+    specs = [{'kind': 'lib', 'lib': l, 'part': p, 'parts': 3, 'subsets': 3 if q else 'all'} for l in H.LIBS for p in range(3)]
+    specs += [{'kind': 'shapes', 'n': 1000 if q else 20000} for _ in range(4 if q else 8)]
+    specs += [{'kind': 'hier', 'n': 300 if q else 8000} for _ in range(4 if q else 8)]
     specs += [{'kind': 'witness'}]
     return specs
 
